@@ -35,7 +35,7 @@ type c17ValCase struct {
 
 func c17PosSizes(tier string) (parseUnits, valUnits, per int) {
 	if tier == "thorough" {
-		return 600, 1500, 40
+		return 4000, 10000, 40
 	}
 	return 192, 384, 16
 }
@@ -152,7 +152,7 @@ func c17ParseRun(c *mon.Ctx, i int) {
 			for cut := 1; cut < len(plain); cut++ {
 				t := plain[:cut]
 				res := refjson.Check([]byte(t), refjson.Strict)
-				if res.EndedEarly {
+				if res.EndedEarly && !(role == "enum" && c17NumeralPrefixRepeats(v, plain, cut)) {
 					c17ParseJudge(c, role, t, res)
 				}
 			}
@@ -160,7 +160,7 @@ func c17ParseRun(c *mon.Ctx, i int) {
 				off := r.Intn(len(plain))
 				t := plain[:off] + "?" + plain[off+1:]
 				res := refjson.Check([]byte(t), refjson.Strict)
-				if !res.Accept && !res.EndedEarly && res.ErrOffset == off {
+				if !res.Accept && !res.EndedEarly && res.ErrOffset == off && !(role == "enum" && c17NumeralPrefixRepeats(v, plain, off)) {
 					c17ParseJudge(c, role, t, res)
 				}
 			}
@@ -169,6 +169,32 @@ func c17ParseRun(c *mon.Ctx, i int) {
 			c.Sample("parse position workload", map[string]any{"valid_text": text, "truncations": len(text) - 1})
 		}
 	}
+}
+
+// c17NumeralPrefixRepeats: the fault at offset off cuts a numeral short, and the numeral's
+// remaining prefix is a complete number equal to another element of the enum list. The library
+// then reports the duplicate value (a semantic error of its own) before the scanner reaches the
+// offending byte; the statement's position rule speaks of the parsing error only.
+func c17NumeralPrefixRepeats(v *model.Val, plain string, off int) bool {
+	start := off
+	for start > 0 && strings.IndexByte("0123456789+-.eE", plain[start-1]) >= 0 {
+		start--
+	}
+	if start == off {
+		return false
+	}
+	x, ok := model.Rat(plain[start:off])
+	if !ok {
+		return false
+	}
+	for _, e := range v.Elems {
+		if e.K == model.VNum {
+			if y, ok := model.Rat(e.Num); ok && x.Cmp(y) == 0 {
+				return true
+			}
+		}
+	}
+	return false
 }
 
 func numeralsOf(v *model.Val) string {
